@@ -227,6 +227,21 @@ def rule_P2(prog, fixture=False):
         else:
             res.add(okey, VIOLATED, where, name,
                     "mutable object of type %s with static storage duration is shared by all threads" % s["type"])
+    # P2d: a function-local static / thread_local is initialised once, by whichever call comes first
+    for key, s in sorted(prog.statics.items(), key=lambda kv: (kv[1]["file"], kv[1]["line"])):
+        if not s.get("static_local") or s["file"].endswith("coverage.cc"):
+            continue
+        okey = "P2d:" + s["name"] + "@" + (s.get("func") or "")
+        where = "%s:%d" % (prog.rel(s["file"]), s["line"])
+        name = "%s in %s" % (s["name"], s.get("func"))
+        if s.get("init_uses_this") or s.get("init_uses_param"):
+            res.add(okey, VIOLATED, where, name,
+                    "the initialiser (%s) depends on %s, but a function-local %s object is initialised only by the first call: later "
+                    "calls with other values (another object, another argument) silently reuse the first one"
+                    % (s.get("init_text"), "the object (this)" if s.get("init_uses_this") else "the arguments of the call",
+                       "thread_local" if s["tls"] else "static"))
+        else:
+            res.add(okey, DISCHARGED, where, name, "initialiser is independent of the call (%s)" % (s.get("init_text") or "default"))
     res.stats["static_objects"] = n
     res.stats["thread_local"] = sorted(o.what for o in res.obs if o.extra.get("tls"))
     return res
@@ -253,8 +268,11 @@ def rule_P2b(prog, fixture=False):
     for s in engines:
         where = "%s:%d" % (prog.rel(s["file"]), s["line"])
         okey = "P2b:engine:" + s["name"]
-        if s["tls"]:
-            res.add(okey, DISCHARGED, where, s["name"], "engine is thread_local")
+        if s["tls"] and s.get("init_uses_mutable_global"):
+            res.add(okey, VIOLATED, where, s["name"], "the per-thread engine is initialised from mutable shared state (%s): seeding in one "
+                    "thread changes the sequence a thread that starts drawing later observes" % s.get("init_text"))
+        elif s["tls"]:
+            res.add(okey, DISCHARGED, where, s["name"], "engine is thread_local and starts from a constant")
         else:
             res.add(okey, VIOLATED, where, s["name"], "random engine with static storage is not thread_local: draws in "
                     "one thread change the sequence another thread observes")
